@@ -5,6 +5,7 @@ import (
 	"os"
 
 	"verifmc/ev"
+	"verifmc/pivreg"
 )
 
 func Run(r *ev.Run) {
@@ -19,4 +20,9 @@ func Run(r *ev.Run) {
 	runChunks(r)
 	runServiceQueue(r)
 	runSchedules(r)
+	b := 2
+	if r.Thorough() {
+		b = 3
+	}
+	pivreg.Run(r, b, deadline(r))
 }
